@@ -132,6 +132,18 @@ class SimTime:
         raise HarnessError("the code under test used time.%s, which the simulated clock does not model" % name)
 
 
+_SIM_TIME_FUNCS = ("time", "monotonic", "perf_counter", "time_ns", "monotonic_ns", "sleep")
+
+
+def _sim_time_fn(st, fname):
+    m = getattr(st, fname)
+
+    def f(*a, **k):
+        return m(*a, **k)
+    f._dsim_time = fname
+    return f
+
+
 class _Rec:
     """A sink or a source with a stable identity; several handle shapes."""
 
@@ -322,6 +334,20 @@ class RouterRun:
             t_ = vars(mod).get("time")
             if isinstance(t_, SimTime) or (t_ is not None and type(t_).__name__ == "module" and t_.__name__ == "time"):
                 mod.time = SimTime(self)
+            # ... and where it imported single clock functions (`from time import monotonic [as _now]`)
+            for k_, v_ in list(vars(mod).items()):
+                tn_ = type(v_).__name__
+                if isinstance(v_, SimTime) or (tn_ == "module" and v_.__name__ == "time"):
+                    setattr(mod, k_, SimTime(self))      # `import time as _t`
+                    continue
+                if tn_ not in ("function", "builtin_function_or_method"):
+                    continue
+                fn_ = getattr(v_, "_dsim_time", None)
+                if fn_ is None and tn_ == "builtin_function_or_method" \
+                        and getattr(v_, "__module__", None) == "time" and v_.__name__ in _SIM_TIME_FUNCS:
+                    fn_ = v_.__name__
+                if fn_ is not None:
+                    setattr(mod, k_, _sim_time_fn(SimTime(self), fn_))
         self.pool = {}            # (hub, endpoint) -> datagrams read from the socket and not yet handed to the hub
         self._sock_dry = set()
         self._depth = 0
